@@ -65,7 +65,7 @@ pub fn for_children(e: &Expr, f: &mut dyn FnMut(&Expr)) {
         | Expr::ArrAt(_, a)
         | Expr::Snap(a)
         | Expr::Desnap(a)
-        | Expr::Loop(_, a) => f(a),
+        | Expr::Loop(_, _, a) => f(a),
         Expr::Bin(_, _, a, b) | Expr::AndAlso(a, b) | Expr::OrElse(a, b) | Expr::While(_, a, b) => {
             f(a);
             f(b)
@@ -123,7 +123,7 @@ fn map_children(e: &Expr, f: &mut dyn FnMut(&Expr) -> Expr) -> Expr {
         Expr::ArrAt(x, a) => Expr::ArrAt(*x, b(a)),
         Expr::Snap(a) => Expr::Snap(b(a)),
         Expr::Desnap(a) => Expr::Desnap(b(a)),
-        Expr::Loop(l, a) => Expr::Loop(*l, b(a)),
+        Expr::Loop(l, t, a) => Expr::Loop(*l, t.clone(), b(a)),
         Expr::Bin(o, t, x, y) => {
             let x2 = b(x);
             let y2 = b(y);
@@ -219,7 +219,7 @@ fn type_of(p: &Program, vt: &VarTypes, e: &Expr) -> Option<Ty> {
         Expr::If(_, a, _) => type_of(p, vt, a)?,
         Expr::Block(_, tail) => type_of(p, vt, tail)?,
         Expr::Assign(..) | Expr::While(..) | Expr::Assert(..) | Expr::ArrAppend(..) => Ty::unit(),
-        Expr::Loop(..) => return None,
+        Expr::Loop(_, t, _) => t.clone(),
         Expr::Break(t, _) | Expr::Continue(t) | Expr::Return(t, _) | Expr::Panic(t, _) => t.clone(),
         Expr::Call(f, _) => p.fns[*f].ret.clone(),
         Expr::Try(a) | Expr::Unwrap(_, _, a) => p.variants(&type_of(p, vt, a)?).first()?.clone(),
@@ -404,7 +404,7 @@ fn collect_children<'a>(e: &'a Expr, out: &mut Vec<&'a Expr>) {
         | Expr::ArrAt(_, a)
         | Expr::Snap(a)
         | Expr::Desnap(a)
-        | Expr::Loop(_, a) => out.push(a),
+        | Expr::Loop(_, _, a) => out.push(a),
         Expr::Bin(_, _, a, b) | Expr::AndAlso(a, b) | Expr::OrElse(a, b) | Expr::While(_, a, b) => {
             out.push(a);
             out.push(b)
